@@ -429,7 +429,9 @@ func objectDefineOwnProperty(obj *object, name string, descriptor property, thro
 		// (Maybe put into switch ...)
 		mode0 := prop.mode
 		if mode1&0o200 != 0 {
-			if descriptor.isDataDescriptor() {
+			// The property stays (or becomes) a data property and the
+			// descriptor says nothing about writable: keep what it was.
+			if _, isData := value1.(Value); isData {
 				mode1 &= ^0o200 // Turn off "writable" missing
 				mode1 |= (mode0 & 0o100)
 			}
